@@ -26,6 +26,10 @@ build() {
       ./build/bin/rtgen -hook build/bin/pigeon-verif -out build/rt || exit 2
       echo "$SUM" > build/rt/.sum
     fi
+    # map-order explorer: overlay copies of ast/builder with harness-chosen map iteration order
+    go build -o build/bin/maporder ./engine/maporder || exit 2
+    ./build/bin/maporder -out "$ROOT/build/overlay" >/dev/null || exit 2
+    (cd /repo && go build -tags verif -overlay "$ROOT/build/overlay/overlay.json" -o "$ROOT/build/bin/pigeon-verif-order" .) || exit 2
     go build -o build/bin/vcheck ./cmd/vcheck || exit 2
   ) 9>build/.lock
 }
